@@ -62,6 +62,8 @@ thread_local! {
     static PROBE_KEEP: RefCell<(i64, i64)> = RefCell::new((0, 0)); // (every, last_n) sampling
     static VECS: RefCell<Vec<ValueReference<Vec<Value<f32>>>>> = RefCell::new(Vec::new());
     static PANIC_INFO: RefCell<Option<(String, String)>> = RefCell::new(None);
+    // bytes the harness itself holds for its observation logs (excluded from the live-heap measure)
+    static EXCLUDED: std::cell::Cell<isize> = const { std::cell::Cell::new(0) };
 }
 
 type V = Value<f32>;
@@ -210,7 +212,10 @@ fn define_natives(it: &It) -> Result<(), SchemeError> {
             |args: ArgVec<f32>, _env: Rc<Environment<f32>>| {
                 let mut it = args.into_iter();
                 let label = it.next().unwrap();
+                let before = LIVE.with(|l| l.get());
                 TICKS.with(|t| t.borrow_mut().push(project(&label)));
+                let after = LIVE.with(|l| l.get());
+                EXCLUDED.with(|e| e.set(e.get() + (after - before)));
                 // builtins receive their arguments flat (the rest parameter is not packed)
                 Ok(match it.next() {
                     Some(v) => v,
@@ -230,7 +235,8 @@ fn define_natives(it: &It) -> Result<(), SchemeError> {
                 let site = it.next().unwrap();
                 let iter = it.next().unwrap();
                 let sp = stack_pointer();
-                let live = LIVE.with(|l| l.get());
+                let before = LIVE.with(|l| l.get());
+                let live = before - EXCLUDED.with(|e| e.get());
                 let n = match &iter {
                     Value::Number(Number::Integer(i)) => *i as i64,
                     _ => -1,
@@ -246,6 +252,8 @@ fn define_natives(it: &It) -> Result<(), SchemeError> {
                         )
                     });
                 }
+                let after = LIVE.with(|l| l.get());
+                EXCLUDED.with(|e| e.set(e.get() + (after - before)));
                 Ok(iter)
             },
         )),
